@@ -17,7 +17,7 @@ def ones_complement_checksum(byte_arr: bytearray) -> bytearray:
         checksum += int.from_bytes(checksum_arr[i:i + 2], "big")
 
     # short checksum to 16 Bit
-    while checksum > 65536:
+    while checksum > 0xFFFF:
         first = checksum >> 16
         last = checksum & 0xFFFF
         checksum = first + last
